@@ -250,6 +250,11 @@ func (p *PacketOut) MarshalBinary() (data []byte, err error) {
 	copy(data[n:], b)
 	n += len(b)
 
+	// sized now: an action may have grown since AddAction counted it
+	p.ActionsLen = 0
+	for _, a := range p.Actions {
+		p.ActionsLen += a.Len()
+	}
 	binary.BigEndian.PutUint32(data[n:], p.BufferId)
 	n += 4
 	binary.BigEndian.PutUint32(data[n:], p.InPort)
